@@ -542,6 +542,14 @@ func (m *Monitors) c13(st *Step) []Finding {
 					if why := m.joinEntitled(st, A, b.c); why != "" {
 						add("join:"+why, fmt.Sprintf("joined %q (modes %q key %q bans %d invited=%v)", k, b.c.Modes, b.c.ChanKey, len(b.c.Bans), A.Invited(k)))
 					}
+					// an invitation is good for one JOIN: entering a channel that is invite-only or
+					// captcha-protected uses it up
+					if (b.c.HasMode('i') || b.c.HasMode('x')) && A.Invited(k) {
+						m.Stats["c13.joins-by-invitation"]++
+						if as := st.After.SessionById(A.Id); as != nil && as.Invited(k) {
+							add("invite:not-used-up", fmt.Sprintf("joined %q (modes %q) on an invitation and still holds that invitation afterwards", k, b.c.Modes))
+						}
+					}
 				}
 			}
 		}
